@@ -69,6 +69,8 @@ class PacManH(Harness):
     THOROUGH = ["PacMan@9x11"]
     INVALID = "ignore"
     TIME_LIMIT = True
+    # counters that the code decrements/accumulates without bound; the harness ranges are bounds of the claim
+    OPEN_DOMAIN = (".frightened_state_time", ".ghost_init_steps", ".ghost_starts", ".score")
 
     def __init__(self, cfg, **over):
         requested = over.get("time_limit")
